@@ -277,9 +277,9 @@ def tname (c : Chart) (ti : Nat) : String :=
 /-- `executeContent(transition)` bracketed by the taking-transition notifications -/
 def executeTransition (c : Chart) (config : List Nat) (ti : Nat) (x : XS) : XS :=
   let t := tr c ti
-  let x := x.emit s!"bt:{tname c ti}"
+  let x := x.emit (.bt (tname c ti))
   let x := if t.hasContent then execBlock c config t.content x else x
-  x.emit s!"at:{tname c ti}"
+  x.emit (.at (tname c ti))
 
 /-- `exitStates` -/
 def exitStates (c : Chart) (s : SState) (ts : List Nat) : SState :=
@@ -308,19 +308,19 @@ def exitStates (c : Chart) (s : SState) (ts : List Nat) : SState :=
           (h, v) :: hist.filter (·.1 != h)) hist) s.hist
       { s with hist := hist }
   statesToExit.foldl (fun s k =>
-    let x := s.x.emit s!"bx:{sid c k}"
+    let x := s.x.emit (.bx (sid c k))
     let x := execBlocks c s.config (st c k).onexit x
-    let x := x.emit s!"ax:{sid c k}"
+    let x := x.emit (.ax (sid c k))
     { s with config := s.config.filter (· != k), x := x }) s
 
 /-- `enterStates` -/
 def enterStates (c : Chart) (s : SState) (ts : List Nat) : SState :=
   let e := computeEntrySet c s ts
   (e.statesToEnter.mergeSort (· ≤ ·)).foldl (fun s k =>
-    let x := s.x.emit s!"be:{sid c k}"
+    let x := s.x.emit (.be (sid c k))
     let config := (addSet s.config k).mergeSort (· ≤ ·)
     let x := execBlocks c config (st c k).onentry x
-    let x := x.emit s!"ae:{sid c k}"
+    let x := x.emit (.ae (sid c k))
     let x := if e.statesForDefaultEntry.contains k then
         match (initialOf c k).2 with
         | some ti => executeTransition c config ti x
@@ -367,22 +367,22 @@ def macrostep (c : Chart) : Nat → SState → SState × Bool
         | [] => (s, true)
         | ev :: rest =>
           let s := { s with x := { s.x with iq := rest } }
-          let s := { s with x := s.x.emit s!"bpe:{ev}" }
+          let s := { s with x := s.x.emit (.bpe ev) }
           let (s, enabled) := selectTransitions c s (some ev)
           if !enabled.isEmpty then macrostep c fuel (microstep c s enabled) else macrostep c fuel s
 
 /-- `exitInterpreter` (reported like the engines do: completion brackets, handlers only) -/
 def exitInterpreter (c : Chart) (s : SState) : SState :=
-  let x := s.x.emit "bcomp"
+  let x := s.x.emit .bcomp
   let x := (s.config.mergeSort (· ≥ ·)).foldl (fun x k => execBlocks c s.config (st c k).onexit x) x
-  { s with x := x.emit "acomp" }
+  { s with x := x.emit .acomp }
 
 /-- finish the current macrostep and report the stable configuration -/
 def settle (c : Chart) (s : SState) : SState × Bool :=
   let (s, ok) := macrostep c 60 s
   if !ok then (s, false)
   else if !s.running then (exitInterpreter c s, true)
-  else ({ s with x := (s.x.emit "st").emit (cfgToken c s.config) }, true)
+  else ({ s with x := (s.x.emit .st).emit (.raw (cfgToken c s.config)) }, true)
 
 /-- from a stable point: take external events until the external queue is empty -/
 def drain (c : Chart) : Nat → SState → SState × Bool
@@ -394,7 +394,7 @@ def drain (c : Chart) : Nat → SState → SState × Bool
       | [] => (s, true)
       | ev :: rest =>
         let s := { s with x := { s.x with eq := rest } }
-        let s := { s with x := s.x.emit s!"bpe:{ev}" }
+        let s := { s with x := s.x.emit (.bpe ev) }
         let (s, enabled) := selectTransitions c s (some ev)
         let s := if !enabled.isEmpty then microstep c s enabled else s
         let (s, ok) := settle c s
@@ -414,6 +414,6 @@ def run (c : Chart) (events : List String) (q : Quirks := {}) : List String :=
   let (s, ok) := events.foldl (fun (acc : SState × Bool) ev =>
     if !acc.2 || !acc.1.running then acc
     else drain c 40 { acc.1 with x := acc.1.x.sendExt ev }) (s, ok)
-  (if ok then s.x.obs else "DIVERGE" :: s.x.obs).reverse
+  ((if ok then s.x.obs else Tok.raw "DIVERGE" :: s.x.obs).reverse).map Tok.toString
 
 end UscxmlVerif.Spec.W3C
